@@ -366,6 +366,13 @@ def main(run, replay=None):
     )
     if replay:
         c = replay["case"]
+        if c.get("kind") == "suite":
+            from vcore import suite
+
+            for t in suite.run_suite("linear")["linear"]:
+                if t["test"] == c["test"] and t["cls"] == c["cls"] and any(e["a"] == "Call" and e.get("o") == "stale" for e in t["ev"]):
+                    run.violation({"cls": t["cls"], "outcome": "stale", "source": "test-suite"}, "replayed: stale call in " + t["test"], c)
+            return
         d = Driver(c["cls"], c["D"], c["uc0"], c["seed"], c.get("variant", "direct"))
         last = None
         for h in c["history"]:
@@ -439,10 +446,26 @@ def main(run, replay=None):
     for shape, trs in traces_by_shape.items():
         if trs:
             run.sample({"class": trs[0]["cls"], "history_prefix": trs[0]["ev"][:8]})
+    # (T) on executions nobody here wrote: Linear objects as the repository's own tests use them
+    from vcore import suite
+
+    sd = suite.run_suite("linear")
+    n_suite = 0
+    for t in sd["linear"]:
+        stale = [i for i, e in enumerate(t["ev"]) if e["a"] == "Call" and e.get("o") == "stale"]
+        if stale and not t.get("mock"):
+            e = t["ev"][stale[0]]
+            run.violation({"cls": t["cls"], "outcome": "stale", "source": "test-suite"}, "%s in %s: %s call differs from the uncached computation (cache occupancy %s, training=%s, using_cache=%s)" % (t["cls"], t["test"], e["dir"], e["occ"], e["tr"], e["uc"]), {"kind": "suite", "test": t["test"], "cls": t["cls"]})
+            continue
+        traces_by_shape.setdefault(CLASSES.get(t["cls"], (False, True)), []).append({"uc": t["uc"], "cls": "%s (test-suite: %s)" % (t["cls"], t["test"].split("::")[-1]), "ev": t["ev"]})
+        n_suite += 1
+        run.evaluations += len(t["ev"])
+    run.extra["suite_linear_histories"] = {"pytest": sd["pytest_tail"], "histories": n_suite, "events": sum(len(t["ev"]) for t in sd["linear"]), "recorder_errors": sd["n_errors"]}
     run.traces = validate_traces(run, traces_by_shape)
     run.exhaustive = True
     run.assumptions = [
         "parameter versions abstracted to {current, stale}; the uncached twin built from the same working tree is the oracle",
         "alphabet = the property's: train, eval, use_cache, forward, inverse, forward/inverse+backward, optimiser step in training mode, load_state_dict, dtype conversion",
+        "test-suite leg: Linear objects as the repository's tests use them (mocked subclasses: occupancy and flags only), recorded by vcore.suite_rec and validated by the same trace specification",
         "TLC 1.8 and the TLA+ value parser are trusted",
     ]
